@@ -295,6 +295,10 @@ func loadACLFromYAML(
 		return nil, false, ferr
 	}
 
+	if _, found := nom.Get(acl.superuser); found {
+		return nil, false, errors.Errorf("superuser")
+	}
+
 	if !isnew {
 		_ = acl.m.Traverse(func(key string, _ map[ACLScope]ACLPerm) bool {
 			if _, found := nom.Get(key); !found {
